@@ -258,21 +258,22 @@ impl Property for C05 {
     }
     fn runs(&self, tier: Tier) -> u64 {
         match tier {
-            Tier::Quick => 2_500,
-            Tier::Thorough => 60_000,
+            Tier::Quick => 8_000,
+            Tier::Thorough => 150_000,
         }
     }
     fn wall_cap(&self, tier: Tier) -> u64 {
         match tier {
-            Tier::Quick => 240,
-            Tier::Thorough => 1500,
+            Tier::Quick => 300,
+            Tier::Thorough => 2700,
         }
     }
     fn gen(&self, run_seed: u64, _tier: Tier) -> Value {
         let mut rng = Rng::sub(run_seed, "workload");
         let wrapper = rng.chance(1, 3);
         let apx = if wrapper { rng.chance(1, 10) } else { rng.chance(2, 5) };
-        let (n, atts) = gen_graph(&mut rng, 6);
+        // half of the instances from the shape families (motifs on which the semantics differ)
+        let (n, atts) = if rng.bool() { crate::cases::shaped_graph(&mut rng, 6) } else { gen_graph(&mut rng, 6) };
         let names: Vec<String> = (0..n).map(|i| ["a", "b", "c", "d", "e", "f", "g"][i].to_string() + if rng.chance(1, 4) { "_1" } else { "" }).collect();
         let mut text = render_instance(&mut rng, apx, n, &atts, &names);
         let mut frng = Rng::sub(run_seed, "faults");
@@ -317,7 +318,7 @@ impl Property for C05 {
                 }
             }
         };
-        let mut encoding = if rng.chance(1, 2) { Some(rng.pick(&["aux_var", "exp", "hybrid"]).to_string()) } else { None };
+        let mut encoding = if rng.chance(2, 3) { Some(rng.pick(&["aux_var", "exp", "hybrid"]).to_string()) } else { None };
         if encoding.as_deref() == Some("exp") && defender_product(n, &atts) > 2000 {
             encoding = Some("hybrid".into());
         }
